@@ -251,7 +251,9 @@ namespace
         unsigned done_mask;               // call times that have passed
         unsigned step_done;               // steps that have completed
         int step_locale_ok[MAX_STEPS];    // 1: the locale was installed, -1: the installation call failed, 0: no locale action
-        unsigned step_ctype[MAX_STEPS];   // fingerprint of the <cctype> tables the step's thread saw (after its locale action)
+        unsigned step_ctype[MAX_STEPS];   // fingerprints of the <cctype> tables the step's thread saw (after its locale action): classification ...
+        unsigned step_case[MAX_STEPS];    // ... and case mapping
+        int step_fp_taken[MAX_STEPS];
         int thread_error;                 // pthread_create / semaphore failure: harness error
         long long cases[MAX_STEPS], enc_cases[MAX_STEPS], nontrivial[MAX_STEPS], failing[MAX_STEPS];
         int n_fail;
@@ -366,21 +368,23 @@ namespace
 
     // Fingerprint (FNV-1a, 32 bit) of what <cctype> says about all 256 values ON THE CALLING THREAD: class bits, toupper, tolower.
     // check.py computes the same number from the locale definition it compiled (MANIFEST).
-    unsigned ctype_fingerprint()
+    struct CtypeFp { unsigned cls, cas; };   // classification (isupper .. isxdigit) and case mapping (toupper, tolower) separately: glibc can leave a thread with the two from different locales
+    CtypeFp ctype_fingerprint()
     {
         // through volatile function pointers: g++ expands a direct isdigit() call inline to "c - '0' < 10" and would never consult the locale
         typedef int (*fn)(int);
         static fn volatile F[10] = {static_cast<fn>(std::isupper), static_cast<fn>(std::islower), static_cast<fn>(std::isalpha), static_cast<fn>(std::isdigit), static_cast<fn>(std::isspace),
                                     static_cast<fn>(std::ispunct), static_cast<fn>(std::iscntrl), static_cast<fn>(std::isxdigit), static_cast<fn>(std::toupper), static_cast<fn>(std::tolower)};
-        unsigned h = 2166136261u;
+        CtypeFp r = {2166136261u, 2166136261u};
         for (int b = 0; b < 256; ++b)
         {
             unsigned m = 0;
             for (int k = 0; k < 8; ++k) if (F[k](b)) m |= 1u << k;
-            const unsigned v[3] = {m, unsigned(F[8](b)) & 255u, unsigned(F[9](b)) & 255u};
-            for (int k = 0; k < 3; ++k) { h ^= v[k]; h *= 16777619u; }
+            r.cls = (r.cls ^ m) * 16777619u;
+            r.cas = (r.cas ^ (unsigned(F[8](b)) & 255u)) * 16777619u;
+            r.cas = (r.cas ^ (unsigned(F[9](b)) & 255u)) * 16777619u;
         }
-        return h;
+        return r;
     }
 
     locale_t g_keep_locale[MAX_STEPS];   // locale objects installed with uselocale stay alive (and reachable) until the process ends
@@ -414,7 +418,10 @@ namespace
         const Step& s = c->sched.st[st];
         c->cur_step = st;
         if (s.loc >= 0) install_locale(c, st);
-        c->step_ctype[st] = ctype_fingerprint();
+        const CtypeFp fp = ctype_fingerprint();
+        c->step_ctype[st] = fp.cls;
+        c->step_case[st] = fp.cas;
+        c->step_fp_taken[st] = 1;
         if (s.run) run_set(c, st);
         c->step_done |= 1u << st;
         c->cur_step = -1;
@@ -516,16 +523,16 @@ namespace
     std::string show_obs(const unsigned char* p, int len) { return len < 0 ? std::string("(nothing)") : show(p, std::size_t(len < OBS_MAX ? len : OBS_MAX), len); }
 
     // ---- locales known to this run: the three built-in ones + whatever check.py compiled into $LOCPATH (MANIFEST) ------------
-    struct Loc { std::string name, text; unsigned fp; bool compiled; };
+    struct Loc { std::string name, text; unsigned fp, fp_case; bool compiled; };
     std::vector<Loc> g_locs;
-    unsigned g_ascii_fp = 0;
+    CtypeFp g_ascii_fp = {0, 0};
 
     void load_locales()
     {
         if (!g_locs.empty()) return;
         g_ascii_fp = ctype_fingerprint();   // the driver itself never leaves the "C" locale
         const char* builtin[3] = {"C", "POSIX", "C.utf8"};
-        for (int i = 0; i < 3; ++i) g_locs.push_back({builtin[i], "bytes >= 0x80 belong to no character class", g_ascii_fp, false});
+        for (int i = 0; i < 3; ++i) g_locs.push_back({builtin[i], "bytes >= 0x80 belong to no character class", g_ascii_fp.cls, g_ascii_fp.cas, false});
         const char* lp = std::getenv("LOCPATH");
         if (!lp) return;
         std::FILE* f = std::fopen((std::string(lp) + "/MANIFEST").c_str(), "r");
@@ -534,19 +541,23 @@ namespace
         while (std::fgets(line, sizeof line, f))
         {
             char name[64];
-            unsigned fp = 0;
+            unsigned fp = 0, fpc = 0;
             int used = 0;
-            if (std::sscanf(line, "%63s %x %n", name, &fp, &used) < 2) continue;
+            if (std::sscanf(line, "%63s %x %x %n", name, &fp, &fpc, &used) < 3) continue;
             std::string text = line + used;
             while (!text.empty() && (text.back() == '\n' || text.back() == ' ')) text.pop_back();
             if (std::string(name) == "ascii")
             {
                 // check.py's own idea of the "C" classification: the fingerprint function itself is cross-checked here
-                if (fp != g_ascii_fp) { std::fprintf(stderr, "C13 calltime harness: <cctype> fingerprint of the C locale is %08x, check.py expects %08x\n", g_ascii_fp, fp); std::exit(2); }
+                if (fp != g_ascii_fp.cls || fpc != g_ascii_fp.cas)
+                {
+                    std::fprintf(stderr, "C13 calltime harness: <cctype> fingerprints of the C locale are %08x %08x, check.py expects %08x %08x\n", g_ascii_fp.cls, g_ascii_fp.cas, fp, fpc);
+                    std::exit(2);
+                }
                 continue;
             }
             if (std::strlen(name) >= LOC_NAME_MAX || g_locs.size() >= MAX_LOC) { std::fprintf(stderr, "C13 calltime harness: bad MANIFEST entry %s\n", name); std::exit(2); }
-            g_locs.push_back({name, text, fp, true});
+            g_locs.push_back({name, text, fp, fpc, true});
         }
         std::fclose(f);
     }
@@ -555,14 +566,31 @@ namespace
         for (std::size_t i = 0; i < g_locs.size(); ++i) if (g_locs[i].name == name) return int(i);
         return -1;
     }
-    // the locale whose tables a thread saw ("ascii" = C, POSIX and C.utf8, which classify single bytes identically); -1: unknown tables
-    int locale_by_fp(unsigned fp)
+    // What a thread saw, named after the locales of this run.  cls / cas: index of a locale with that classification / case mapping ("ascii" = index 0
+    // stands for C, POSIX and C.utf8, which treat single bytes identically); the two differ when glibc left the thread with tables from two locales
+    // (a thread that already existed when ANOTHER thread called setlocale keeps its old classification tables but sees the new case mapping).
+    struct Seen { int cls, cas; };
+    bool seen_by_fp(unsigned fp, unsigned fpc, Seen& out)
     {
-        if (fp == g_ascii_fp) return 0;
-        for (std::size_t i = 3; i < g_locs.size(); ++i) if (g_locs[i].fp == fp) return int(i);
-        return -1;
+        for (std::size_t i = 0; i < g_locs.size(); ++i)
+            if (g_locs[i].fp == fp && g_locs[i].fp_case == fpc) { out.cls = out.cas = int(i); return true; }
+        out.cls = out.cas = -1;
+        for (std::size_t i = 0; i < g_locs.size(); ++i)
+        {
+            if (out.cls < 0 && g_locs[i].fp == fp) out.cls = int(i);
+            if (out.cas < 0 && g_locs[i].fp_case == fpc) out.cas = int(i);
+        }
+        return out.cls >= 0 && out.cas >= 0;
     }
-    std::string ctype_label(int li) { return li < 3 ? std::string("ascii") : g_locs[std::size_t(li)].name; }
+    std::string loc_label(int li) { return li < 3 ? std::string("ascii") : g_locs[std::size_t(li)].name; }
+    std::string ctype_label(const Seen& s) { return s.cls == s.cas ? loc_label(s.cls) : "classes-of-" + loc_label(s.cls) + "+case-maps-of-" + loc_label(s.cas); }
+    std::string loc_words(int li) { return li < 3 ? std::string("the C / POSIX / C.utf8 locales") : "the 8-bit locale '" + g_locs[std::size_t(li)].name + "'"; }
+    std::string ctype_words(const Seen& s)
+    {
+        if (s.cls == s.cas) return "whose <cctype> classification and case mapping at that moment are those of " + loc_words(s.cls) + " (" + g_locs[std::size_t(s.cls)].text + ")";
+        return "whose <cctype> classification at that moment is that of " + loc_words(s.cls) + " (" + g_locs[std::size_t(s.cls)].text + ") while toupper / tolower are those of " + loc_words(s.cas) +
+               " (glibc: the locale was changed by another thread after this thread had been created)";
+    }
 
     // ---- schedules: text form, properties --------------------------------------------------------------------------------
     const char THREAD_LETTER[N_THREADS] = {'M', 'A', 'B', 'F'};
@@ -705,22 +733,20 @@ namespace
         return same ? "after-earlier-calls-on-this-thread-only" : "first-call-on-this-thread-after-calls-on-another-thread";
     }
 
-    // ctype_li: the locale whose <cctype> tables the step's thread saw
-    std::string sig_of(const Sched& s, int i, int ctype_li, const std::string& op, const std::string& kind)
+    // seen: the locale(s) whose <cctype> tables the step's thread saw
+    std::string sig_of(const Sched& s, int i, const Seen& seen, const std::string& op, const std::string& kind)
     {
         std::string o = std::string("C13/calltime/") + TIME_NAME[s.st[i].time] + "," + history_class(s, i);
         if (is_threaded(s)) o += std::string(",thread=") + THREAD_NAME[s.st[i].thread];
-        if (is_localed(s)) o += ",lc-ctype=" + ctype_label(ctype_li);
+        if (is_localed(s)) o += ",lc-ctype=" + ctype_label(seen);
         return o + "/" + op + "/" + kind;
     }
-    std::string where(const Sched& s, int i, int ctype_li, const char* setname)
+    std::string where(const Sched& s, int i, const Seen& seen, const char* setname)
     {
         if (is_plain(s))
             return std::string("called from ") + TIME_TEXT[s.st[i].time] + " [process that calls the library at: " + mask_text(mask_of(s)) + "; replay: --calltime " + setname + " " + sched_arg(s) + "]";
         std::string o = std::string("called from ") + TIME_TEXT[s.st[i].time] + " on " + THREAD_TEXT[s.st[i].thread];
-        if (is_localed(s))
-            o += ", whose <cctype> classification at that moment is that of " +
-                 (ctype_li < 3 ? std::string("the C / POSIX / C.utf8 locales") : "the 8-bit locale '" + g_locs[std::size_t(ctype_li)].name + "'") + " (" + g_locs[std::size_t(ctype_li)].text + ")";
+        if (is_localed(s)) o += ", " + ctype_words(seen);
         return o + " [step " + vf::str(i + 1) + " of the process: " + sched_text(s) + "; replay: --calltime " + setname + " " + sched_arg(s) + "]";
     }
 
@@ -752,6 +778,10 @@ namespace
             char fdtxt[16];
             std::snprintf(fdtxt, sizeof fdtxt, "%d", cfd);
             setenv("C13_CALLTIME_CHILD_FD", fdtxt, 1);
+            // no leak check at the exit of a child: its report would go unread (stderr is the private diagnostics file, the exit code is forced to 0), glibc's
+            // newlocale() with LOCPATH leaks 72 bytes of its own, and symbolising that costs 0.1 s per process
+            const char* ao = std::getenv("ASAN_OPTIONS");
+            setenv("ASAN_OPTIONS", ((ao ? std::string(ao) + ":" : std::string()) + "detect_leaks=0").c_str(), 1);
             dup2(efd, 2);
             int nul = open("/dev/null", O_WRONLY);
             if (nul >= 0) dup2(nul, 1);
@@ -783,26 +813,32 @@ namespace
             std::exit(2);
         }
         // which <cctype> tables did every executed step see?  (harness error if a locale could not be installed or is not the compiled one)
-        int ctype_li[MAX_STEPS];
+        Seen ctype_li[MAX_STEPS];
         for (int i = 0; i < s.n; ++i)
         {
-            ctype_li[i] = 0;
+            ctype_li[i].cls = ctype_li[i].cas = 0;
             const bool reached = ((c->step_done >> i) & 1u) || c->cur_step == i;
             if (!reached) continue;
-            if (s.st[i].loc >= 0 && c->step_locale_ok[i] != 1)
+            if (s.st[i].loc >= 0 && c->step_locale_ok[i] == -1)
             {
                 std::fprintf(stderr, "C13 calltime harness: child (%s) could not install the locale '%s' with %s in step %d (LOCPATH=%s)\n", arg.c_str(),
                              g_locs[std::size_t(s.st[i].loc)].name.c_str(), METHOD_TEXT[s.st[i].method], i + 1, std::getenv("LOCPATH") ? std::getenv("LOCPATH") : "(unset)");
                 std::exit(2);
             }
-            if (!((c->step_done >> i) & 1u) && c->step_ctype[i] == 0) continue;   // died before the fingerprint was taken (inside the locale installation: reported below)
-            ctype_li[i] = locale_by_fp(c->step_ctype[i]);
-            if (ctype_li[i] < 0 || (s.st[i].loc >= 0 && c->step_ctype[i] != g_locs[std::size_t(s.st[i].loc)].fp))
+            if (!c->step_fp_taken[i]) continue;   // died before the fingerprint was taken (inside the locale installation: a harness error, reported below)
+            const bool known = seen_by_fp(c->step_ctype[i], c->step_case[i], ctype_li[i]);
+            // the installing thread must see the new locale - unless it is a thread that has put itself under a locale of its own before (uselocale), which a later
+            // process-wide setlocale / std::locale::global does not touch
+            bool shadowed = false;
+            for (int k = 0; k < i; ++k)
+                if (s.st[k].loc >= 0 && s.st[k].method == LM_THREAD && same_thread(s.st[k], s.st[i]) && s.st[i].method != LM_THREAD) shadowed = true;
+            const bool own = s.st[i].loc < 0 || shadowed || (c->step_ctype[i] == g_locs[std::size_t(s.st[i].loc)].fp && c->step_case[i] == g_locs[std::size_t(s.st[i].loc)].fp_case);
+            if (!known || !own)
             {
-                char want[16] = "";
-                if (s.st[i].loc >= 0) std::snprintf(want, sizeof want, "%08x", g_locs[std::size_t(s.st[i].loc)].fp);
-                std::fprintf(stderr, "C13 calltime harness: child (%s), step %d: the thread's <cctype> tables have fingerprint %08x, %s%s\n", arg.c_str(), i + 1, c->step_ctype[i],
-                             s.st[i].loc >= 0 ? ("but the locale just installed, '" + g_locs[std::size_t(s.st[i].loc)].name + "', should give ").c_str() : "which is not that of any locale of this run", want);
+                char want[32] = "";
+                if (s.st[i].loc >= 0) std::snprintf(want, sizeof want, "%08x %08x", g_locs[std::size_t(s.st[i].loc)].fp, g_locs[std::size_t(s.st[i].loc)].fp_case);
+                std::fprintf(stderr, "C13 calltime harness: child (%s), step %d: the thread's <cctype> tables have the fingerprints %08x %08x, %s%s\n", arg.c_str(), i + 1, c->step_ctype[i], c->step_case[i],
+                             !own ? ("but the locale just installed, '" + g_locs[std::size_t(s.st[i].loc)].name + "', should give ").c_str() : "which are not those of any locale of this run", want);
                 std::exit(2);
             }
         }
@@ -848,7 +884,7 @@ namespace
             long sub = 0;
             make_case(set, f.idx, enc, in, &seg, &sub);
             const std::string cs = " {case " + std::string(enc ? "enc " : "dec ") + seg_name(seg) + " #" + vf::str(sub) + "}";
-            const int li = ctype_li[f.step];
+            const Seen& li = ctype_li[f.step];
             const std::string w = where(s, f.step, li, setname);
             switch (f.kind)
             {
